@@ -361,6 +361,7 @@ pub fn run_check(prop: &dyn Prop, cfg: &RunCfg) -> i32 {
     // regression inputs: the minimised traces of defects that were found and repaired are replayed
     // first, so a defect that returns is reported with exactly the trace that exposed it
     let mut regressions = 0;
+    let mut regression_known_hits: BTreeMap<String, u64> = BTreeMap::new();
     let mut files: Vec<std::path::PathBuf> = Vec::new();
     for sub in ["findings", "corpus"] {
         if let Ok(rd) = std::fs::read_dir(format!("{}/{}", cfg.verif_dir, sub)) {
@@ -388,7 +389,9 @@ pub fn run_check(prop: &dyn Prop, cfg: &RunCfg) -> i32 {
                 let mut st = Stats::default();
                 regressions += 1;
                 if let Ok(RunOut { violation: Some(v), .. }) = prop.exec(case, &mut st) {
-                    if !known.iter().any(|k| k.property == pid && k.signature == v.class) {
+                    if known.iter().any(|k| k.property == pid && k.signature == v.class) {
+                        *regression_known_hits.entry(v.class.clone()).or_insert(0u64) += 1;
+                    } else {
                         println!("VIOLATION property={} replay={}", pid, f.display());
                         println!("  class={} step={} (regression input: a repaired defect is back)", v.class, v.step);
                         println!("  detail={}", v.detail);
@@ -408,9 +411,8 @@ pub fn run_check(prop: &dyn Prop, cfg: &RunCfg) -> i32 {
     let mut exit = 0;
     let mut viol_count = 0;
     for k in known.iter().filter(|k| k.property == pid) {
-        if let Some(n) = sum.known_hits.get(&k.signature) {
-            println!("KNOWN-FINDING: property={} signature={} hits={} {}", pid, k.signature, n, k.what);
-        }
+        let n = sum.known_hits.get(&k.signature).cloned().unwrap_or(0) + regression_known_hits.get(&k.signature).cloned().unwrap_or(0);
+        println!("KNOWN-FINDING: property={} signature={} hits={} {}", pid, k.signature, n, k.what);
     }
     if let Some((index, case, v)) = sum.violations.first() {
         viol_count = sum.violations.len();
